@@ -14,6 +14,7 @@ The header carries what the real code chose (factor base + square roots, selecti
 the body byte for byte (K).  The oracle (O) re-derives everything the property states from the numbers in
 the answer with plain Python integers.
 """
+import hashlib
 import math
 from vlib.pipeline import Case
 from vlib import gen
@@ -23,18 +24,21 @@ GEN = ["qsshift"]
 LEAN = ["Ymq.Props.C12"]
 AUDIT = "Ymq.Audit.C12"
 THEOREMS = ["Ymq.C12." + t for t in (
-    "siqs_identity siqs_identity_model eval_eq_polyVal siqs_B_sq min_trick gray_step roots_inv roots_walk poly_exact roots_exact hensel_lift mpqs_identity prepare_prime_exact qs_roots_exact lgblock_shift").split()]
+    "siqs_identity siqs_identity_model eval_eq_polyVal siqs_B_sq walk_B_sq min_trick gray_step roots_inv roots_walk poly_exact roots_exact hensel_lift mpqs_identity prepare_prime_exact qs_roots_exact lgblock_shift").split()]
 HYPOTHESES = []
 PROFILES = ["release", "chk"]
 TIMEOUT = 60.0
 BRUTE = 400          # primes up to this bound: the root set is enumerated over all residues
 
-RULE = ("n = product of two random primes (20..200 bits quick, ..400 thorough), 40 per residue class mod 8 forced by the choice of "
-        "the cofactor, with multiplier k in {1,3,5,7,11,13,...} for a third of them; SIQS: factor base 16..2000 primes, nfacs 0..12 (auto "
-        "and forced), interval 4k..512k, 1-3 A values per n, every Gray index for nfacs <= 6 else every 64th + last 16; MPQS: D prime "
-        "3 mod 4 around the target, D inside the factor base (tiny n, both signs of C), composite pseudo-square D = (k+1)(2k+1), batches of "
-        "up to 16 D values; QS: forward/backward roots, only-odds mode (n = 1 mod 8); out-of-domain MPQS inputs (r^2 > n) in the checked "
-        "profile, model compared only; distinct = distinct request lines")
+RULE = ("n = product of two random primes, the residue class mod 8 forced (1, 3, 5, 7; 2 and 6 through even multipliers), 24..200 bits quick / "
+        "..400 bits thorough, multiplier k in {3,5,7,11,13,15,17,21,35,2,6} for a third of them; SIQS: parameters of the real driver (auto) or "
+        "forced factor base 16..6000 (thorough 20000) primes, nfacs 0 and 2..14, interval 16k..512k, 1-3 A values per n, every Gray index for "
+        "nfacs <= 6 else every 64th + the last 16, per polynomial all primes of the factor base; MPQS: D prime 3 mod 4 next to the driver's "
+        "target, D inside the factor base for tiny n (both signs of C), composite pseudo-squares D = (k+1)(2k+1), batches of up to 16 D; QS: "
+        "forward/backward roots incl. only-odds mode; out-of-domain make_poly inputs (D^2 > n) in the checked profile, model compared only; "
+        "oracle: root sets enumerated over all residues for p <= 400, above that both entries are checked to be roots and completeness follows "
+        "from the degree (two distinct roots, or a double root iff p | n; one root when p | A resp. p | D); distinct = distinct request lines "
+        "with at least one polynomial")
 MODELLED = [
     "siqs::{prepare_a, Poly::first, Poly::next, _finish_polynomial, Poly::eval, SieveSIQS::new (offsets, nsqrt)} and the table of inverses "
     "of select_siqs_factors (Ymq/Model/SiqsPoly.lean): u32 wrap-around of the min trick, I256/i32 overflow, every assert/debug_assert/"
@@ -80,7 +84,23 @@ def pairs(s):
     return [] if s == "-" else [tuple(int(y) for y in x.split(":")) for x in s.split(",")]
 
 
+_SENT = set()
+
+
 def followup(case, ans):
+    """model request + expected answer. The pipeline asks once per profile; when the checked profile gives the same
+    answer as the release profile the identical (request, expected) pair is not sent to the model a second time."""
+    fu = _followup(case, ans)
+    if fu is None:
+        return None
+    key = hashlib.blake2b((fu[0] + "\0" + fu[1]).encode(), digest_size=12).digest()
+    if key in _SENT:
+        return None
+    _SENT.add(key)
+    return fu
+
+
+def _followup(case, ans):
     h, body = split_answer(ans)
     if h is None or body in ("sel-panic", "no-a", "no-d"):
         return None
@@ -353,9 +373,12 @@ def semiprime(rng, bits, cls):
     raise RuntimeError("no semiprime found")
 
 
-def walk_spec(nf):
-    """(step, tail, maxpolys): every index for nfacs <= 6, else every 64th and the last 16"""
-    return (1, 0, 1 << 20) if nf <= 6 else (64, 16, 1 << 20)
+def walk_spec(nf, big=False):
+    """(step, tail, maxpolys): every index for nfacs <= 6, else every 64th and the last 16 of the first 2048 polynomials
+    (the answers are kept in memory by the pipeline: a 20000-prime table is 200 kB per polynomial)"""
+    if nf <= 6:
+        return (1, 0, 1 << 20)
+    return (128, 16, 1024) if big else (64, 16, 2048)
 
 
 def nfactors(bits):
@@ -390,7 +413,7 @@ def siqs_cases(rng, tier, scale):
                 nfv = nf_auto
                 want = "auto" if nb <= 150 else 8
             else:
-                fa = max(16, min(fb_auto(nb), 6000 if tier == "quick" else 20000))
+                fa = max(16, min(fb_auto(nb), 6000 if tier == "quick" else 10000))
                 fbs = max(16, rng.choice([fa, fa, fa // 2, fa // 3, 2 * fa]))
                 nfv = max(2, min(14, nf_auto + rng.choice([-1, 0, 0, 1]))) if style < 4 else rng.choice([2, 2, 3])
                 if fbs <= 24:
@@ -400,7 +423,7 @@ def siqs_cases(rng, tier, scale):
                 nf = nfv
                 mm = rng.choice([16384, 32768, 32768, 65536, 98304, 524288]) if nb < 250 else rng.choice([262144, 524288])
                 want = rng.choice([1, 3, 8])
-            step, tail, mx = walk_spec(nfv)
+            step, tail, mx = walk_spec(nfv, big=(fbs == "auto" and nb > 190) or (fbs != "auto" and fbs > 3000))
             for aidx in range(1 if tier == "quick" and j % 2 else 3):
                 yield Case(f"siqs_walk {n} {k} {fbs} {nf} {mm} {want} {aidx} {step} {tail} {mx}", k=False, tag=f"k{k}")
     # A = 1 (the unit form used by the class group code): small n only
@@ -509,7 +532,7 @@ def qs_cases(rng, tier, scale):
 
 
 def cases(tier, rng, extended=False):
-    scale = 4 if tier == "quick" else 16
+    scale = 4 if tier == "quick" else 5
     if extended:
         scale *= 4
     yield from siqs_cases(rng, tier, scale)
@@ -576,12 +599,22 @@ def nontrivial(case, ans):
     return h is not None and body not in ("sel-panic", "no-a", "no-d")
 
 
-CLAIM = ("Lean theorems about models of the polynomial preparation of the three sieves: the defining identities, the Gray-code step, "
-         "the u32 min trick, the root invariant over the whole Gray walk, exactness of the root tables for odd primes (superset for 2), "
-         "the MPQS Hensel lift and the three branches of prepare_prime, the classical sieve's forward/backward/only-odds roots and the "
-         "large-block shift. The models are tied to the code by differential runs (release and checked profiles) on polynomials the real "
-         "code builds; a Python oracle enumerates root sets and checks the identities on every polynomial of the run.")
-LEVEL_NOTE = ("Trusted: Lean kernel (+propext, Classical.choice, Quot.sound); the correspondence of the hand models to the Rust code (sampled, "
-              "not proved); the translator for next_lgblock; Dividers/Inverter/inv_mod at their specification (C08, C09); the factor base as data "
-              "(checked by the oracle on every run).")
+CLAIM = ("Lean theorems about line-by-line models of the polynomial preparation of the three sieves. SIQS: the defining identities (abstract and for "
+         "the model's polynomials), the CRT basis of prepare_a (every combination of roots squares to n mod A; parity rule: B odd and B^2 = n "
+         "mod 4A for type 2), B of every polynomial of the Gray walk is the Gray-selected sum (so the divisibility and parity assertions cannot "
+         "fail), the Gray-code step (the code's assertion, all idx < 2^63), the u32 min trick, the root invariant after first and its "
+         "preservation by next, hence for every index of the walk, and exactness of the tables: for every prime not dividing a2a exactly the two "
+         "roots, for odd primes dividing A the single root, for p = 2 (type 2) a superset. MPQS: Hensel lift (also for composite D), identities of "
+         "make_poly, all three branches of prepare_prime (p = 2, p | D with either sign of C, generic). QS: forward/backward roots incl. only-odds "
+         "mode, and the root shift of next_lgblock (translated from the source). The models are tied to the code by differential runs (release "
+         "and checked profiles) on polynomials the real code builds; a Python oracle enumerates root sets and checks the identities on every "
+         "polynomial of the run.")
+LEVEL_NOTE = ("Trusted: Lean kernel (+propext, Classical.choice, Quot.sound); the correspondence of the hand models to the Rust code (sampled, not "
+              "proved: every run compares A-data, B, C, rounded root, both root tables and five evaluations per polynomial byte for byte); the "
+              "translator for next_lgblock; Dividers/Inverter/inv_mod/inv_mod64 at their specification (C08, C09); the factor base as data (FbOk: "
+              "primes, r < p, r^2 = n mod p, checked by the oracle on every run). Theorems are soundness statements about what the model returns "
+              "(`= some`): the size assertions of _finish_polynomial (rounded root inside the interval, bit lengths) are parameter-dependent and are "
+              "not proved to hold; the mathematical assertions (Gray step, divisibility of B^2 - n, parity of B, r0 <= r1) are proved never to fail. "
+              "Exactness of the stored C needs the exact quotient to fit an I256 (hypothesis of poly_exact: the code's own check of this reads the "
+              "previous polynomial's C). select_siqs_factors/select_a sampling is taken from the code's answer.")
 TECHNIQUE = "Lean 4 proof about a hand model + differential correspondence check + spec oracle"
